@@ -44,6 +44,22 @@ def decorate(rng, src):
 def cases(rng, tier):
     n = {"quick": 60, "search": 150, "thorough": 400}[tier]
     out = []
+    # eight DIFFERENT sources of more than 64 KiB, formatter on, generated at the same time by eight worker threads of one
+    # process (the driver hands out chunks of four consecutive cases: every chunk starts with a large one): every SOURCE is
+    # ITS input - whatever scratch space a call uses is its own
+    small = W.random_program(rng).render()
+    for k in range(8):
+        pad = "\n".join("// variant %d line %04d %s" % (k, j, "x" * 40) for j in range(1200))
+        out.append({"wgsl": W.random_program(rng).render() + pad + "\n// end of variant %d\n" % k, "family": "concurrent_large_rustfmt",
+                    "opts": {"rustfmt": True}, "include": None})
+        for j in range(3):
+            out.append({"wgsl": small + "// filler %d.%d\n" % (k, j), "family": "concurrent_filler", "opts": {"rustfmt": False}, "include": None})
+    # text that LOOKS like an escape sequence of a Rust string literal (a comment documenting escapes, a code point table):
+    # it is ordinary text, every character of it belongs to the source
+    for esc in ("\\u{6e}", "\\u{74}", "\\u{72}", "\\u{0030}", "\\u{22}", "\\u{27}", "\\u{5c}", "\\u{5C}", "\\u{006E}", "\\n", "\\x41", "\\u{1F600}",
+                "\\\\u{6e}", "\\u{6e}\\u{74}"):
+        out.append({"wgsl": small + "// escape table entry: %s (see the Rust reference)\n" % esc, "family": "escape_like_text",
+                    "opts": {"rustfmt": False}, "include": None, "want_lit": True})
     # preprocessor-style variants of one source: same length, same first and last lines, generated one after the other
     # (the driver hands consecutive cases to the same worker thread): every SOURCE must be ITS input
     head = W.random_program(rng).render()
